@@ -77,8 +77,7 @@ def check(P, R):
 
     # a node created by a split is a bare prefix: it must not keep the route data or the hook of the node it was split from
     sp = P.func(f'{RD}:RadiDict._split')
-    fresh = [c for c in walk_shallow(sp.node) if isinstance(c, ast.Call) and dotted(c.func) == 'self._make_node'
-             and not any(k.arg in ('data', 'hooks') for k in c.keywords)]
+    fresh = [c for c in T.calls_to(sp, 'self._make_node') if not any(k.arg in ('data', 'hooks') for k in c.keywords)]
     whole = [st for st in walk_shallow(sp.node) if isinstance(st, ast.Assign) and isinstance(st.targets[0], ast.Subscript) and isinstance(st.targets[0].slice, ast.Slice)
              and st.targets[0].slice.lower is None and any(st.value is c for c in fresh)]
     if whole:
@@ -127,6 +126,9 @@ def check(P, R):
             if isinstance(x, ast.Call) and isinstance(x.func, ast.Attribute) and x.func.attr in ('set_method', 'add_method') \
                     and isinstance(x.func.value, ast.Name):
                 muts.append(n)
+            if isinstance(x, ast.Call) and isinstance(x.func, ast.Name) and ad.rd.is_local(x.func.id) and any(
+                    isinstance(y, ast.Attribute) and y.attr in ('set_method', 'add_method') for y in ad.rd.closure_nodes(x.func, n, follow_mut=False)):
+                muts.append(n)      # the bound method picked into a local first
         if isinstance(a, ast.Assign) and any(isinstance(t, ast.Subscript) and dotted(t.value) in ('self.routes', 'self.named_routes', 'self.hooks') for t in a.targets):
             muts.append(n)
     R.require(len(muts) >= 4, f'_add: {len(muts)} mutation sites found (5 on the pinned tree)')
@@ -214,7 +216,7 @@ def check_pairing(P, R):
     # remove_hook
     rh = cls_.methods['remove_hook']
     g = rh.cfg
-    rms = [c for c in walk_shallow(rh.node) if isinstance(c, ast.Call) and dotted(c.func) == 'self.radidict.remove']
+    rms = T.calls_to(rh, 'self.radidict.remove')
     R.require(rms, 'remove_hook: radidict.remove not found')
     for c in rms:
         n = g.node_of_stmt(c)[0]
@@ -228,7 +230,7 @@ def check_pairing(P, R):
     # remove
     rm = cls_.methods['remove']
     g, rd = rm.cfg, rm.rd
-    rms = [c for c in walk_shallow(rm.node) if isinstance(c, ast.Call) and dotted(c.func) == 'self.radidict.remove']
+    rms = T.calls_to(rm, 'self.radidict.remove')
     R.require(rms, 'remove: radidict.remove not found')
     for c in rms:
         n = g.node_of_stmt(c)[0]
@@ -257,7 +259,7 @@ def check_pairing(P, R):
         if not isinstance(it_, ast.Name):
             continue
         cn_ = g.node_of_stmt(comp)[0]
-        name_calls = [c for c in walk_shallow(rm.node) if isinstance(c, ast.Call) and dotted(c.func) == 'self._remove_named_routers']
+        name_calls = T.calls_to(rm, 'self._remove_named_routers')
         good = [g.node_of_stmt(c)[0] for c in name_calls if c.args and it_.id in names_loaded(c.args[0])]
         ok = bool(good) and not g.can_reach(cn_, g.exit, avoid_nodes=good, labels_skip=('exc',))
         R.ob('C11.d', rm, comp, ok, text=f'prefix removal: names dropped for the same pattern list `{it_.id}` that is popped from the routes index', detail='' if ok else
